@@ -94,6 +94,7 @@ func (w *_watcher) run() {
 	var curVersion string
 
 	var retry *time.Timer
+	var retrych <-chan string
 
 mainloop:
 	for {
@@ -110,6 +111,7 @@ mainloop:
 			if retry != nil {
 				retry.Stop()
 				retry = nil
+				retrych = nil
 			}
 
 			session.stop()
@@ -120,10 +122,18 @@ mainloop:
 		case <-session.done():
 			w.log.Debugf("session done.  retrying version %v in %v", curVersion, watchRetryDelay)
 
+			// outch is kept: the controller may be waiting on it, and events
+			// already buffered there have been accounted for in curVersion.
 			session.stop()
 			session = nullWatchSession{}
-			outch = nil
-			retry = w.scheduleRetry(w.resetch, curVersion)
+			retry, retrych = w.scheduleRetry(curVersion)
+
+		case vsn := <-retrych:
+			w.log.Debugf("reconnecting at version %v", vsn)
+
+			retry = nil
+			retrych = nil
+			session = newWatchSession(ctx, w.log, w.client, vsn)
 
 		case evt := <-session.events():
 
@@ -152,11 +162,11 @@ mainloop:
 	}
 }
 
-func (w *_watcher) scheduleRetry(ch chan string, vsn string) *time.Timer {
+// scheduleRetry arms a one-shot reconnect at vsn.  Each retry has its own
+// buffered channel, so a retry superseded by reset() is simply never read.
+func (w *_watcher) scheduleRetry(vsn string) (*time.Timer, <-chan string) {
+	ch := make(chan string, 1)
 	return time.AfterFunc(watchRetryDelay, func() {
-		select {
-		case ch <- vsn:
-		case <-w.lc.ShuttingDown():
-		}
-	})
+		ch <- vsn
+	}), ch
 }
